@@ -26,16 +26,22 @@ void hp_base64_roundtrip(void)
 #ifndef B64_S
 #define B64_S 6
 #endif
+#ifndef B64_T
+#define B64_T 3
+#endif
 void hp_base64_decode_safe(void)
 {
-  char *s = malloc(B64_S + 1); size_t tsz = nondet_size_t(); char *t; int r, usenull = nondet_bool(); size_t i;
-  __CPROVER_assume(s != 0 && tsz <= B64_S);
+  char *s = malloc(B64_S + 1); const size_t tsz = B64_T; char *t; int r, usenull = nondet_bool(); size_t i; char guard = nondet_char();
+  __CPROVER_assume(s != 0);
   for (i = 0; i < B64_S; i++) s[i] = nondet_char();
   s[B64_S] = 0;
-  t = usenull ? (char *)0 : malloc(B64_S);      /* a B64_S-byte block of which only tsz bytes may be used */
+  /* the target block has EXACTLY tsz bytes (concrete per job): any store beyond it is a bounds violation */
+  t = usenull ? (char *)0 : malloc(tsz ? tsz : 1);
   __CPROVER_assume(usenull || t != 0);
+  if (!usenull && !tsz) t[0] = guard;
   r = hwloc_decode_from_base64(s, t, tsz);
   __CPROVER_assert(r >= -1 && r <= (int)B64_S, "returns -1 or a length");
   __CPROVER_assert(usenull || r <= (int)tsz, "never reports more bytes than the target holds");
+  if (!usenull && !tsz) __CPROVER_assert(t[0] == guard, "a zero-size target is not written");
   VERIF_CANARY();
 }
